@@ -128,7 +128,10 @@ func runLBAdmin(x *X) {
 	for i := 0; i < nInit; i++ {
 		init0 = append(init0, config.BackendConfig{Name: names[i], Address: "http://" + hostOf(i+1), Weight: wPalette[c.Intn(len(wPalette), "w")]})
 	}
-	onErr := func(e *simrt.SchedError) { x.Violate("C12", "C12/"+e.Kind+"{lbadmin}", "%s", e.Error()) }
+	onErr := func(e *simrt.SchedError) {
+		x.Violate("C12", "C12/"+e.Kind+"{lbadmin}", "%s", e.Error())
+		x.Blocked(e, "lbadmin")
+	}
 	var h *lbHarness
 	var mux http.Handler
 	x.Do("setup", func() {
@@ -202,7 +205,7 @@ func runLBAdmin(x *X) {
 		badStrats := []string{"random", "", "ROUND_ROBIN", "least-connections"}
 		switch c.Pick([]int{5, 4, 2, 3}, "adminop") {
 		case 0:
-			in := adminIn{Op: "add", Name: names[c.Intn(3, "name")], Addr: "http://" + hostOf(1+c.Intn(6, "host")), Weight: append([]int{0}, wPalette...)[c.Intn(len(wPalette)+1, "w")]}
+			in := adminIn{Op: "add", Name: names[c.Intn(3, "name")], Addr: "http://" + hostOf(1+c.Intn(6, "host")), Weight: append([]int{0, -1, -3}, wPalette...)[c.Intn(len(wPalette)+3, "w")]} // (no weight, or a negative one: counts as 1)
 			switch c.Intn(8, "addbad") {
 			case 6:
 				in.Addr = badAddrs[c.Intn(len(badAddrs), "badaddr")]
